@@ -730,6 +730,72 @@ def paired_run(fns):
 
 
 # =====================================================================================
+# assumed lexers: productions of the pp grammar whose BEHAVIOUR is an assumed contract of a preprocessor property
+# =====================================================================================
+_PP_COMMON = ['ws', 'symbol', 'keyword', 'paren', 'white_space', 'compiler_directive', 'compiler_directive_without_resetall', 'source_description',
+              'source_description_not_directive', 'comment', 'one_line_comment', 'block_comment', 'string_literal', 'string_literal_impl',
+              'escaped_identifier', 'escaped_identifier_impl']
+_PP_MACRO = ['text_macro_definition', 'text_macro_name', 'list_of_formal_arguments', 'formal_argument', 'text_macro_identifier', 'text_macro_identifier_exact',
+             'macro_text', 'default_text', 'identifier', 'simple_identifier', 'simple_identifier_exact', 'simple_identifier_impl', 'escaped_identifier_exact',
+             'define_argument', 'define_argument_inner', 'define_argument_str', 'define_argument_paren', 'define_argument_bracket', 'define_argument_brace']
+_PP_USAGE = ['text_macro_usage', 'list_of_actual_arguments', 'actual_argument', 'define_argument', 'define_argument_inner', 'define_argument_str',
+             'define_argument_paren', 'define_argument_bracket', 'define_argument_brace']
+_PP_COND = ['conditional_compiler_directive', 'ifdef_directive', 'ifndef_directive', 'ifdef_group_of_lines', 'ifndef_group_of_lines', 'elsif_group_of_lines',
+            'else_group_of_lines', 'text_macro_identifier', 'text_macro_identifier_exact', 'identifier', 'simple_identifier', 'simple_identifier_impl']
+_PP_INC = ['include_compiler_directive', 'include_compiler_directive_double_quote', 'include_compiler_directive_angle_bracket',
+           'include_compiler_directive_text_macro_usage', 'angle_bracket_literal', 'angle_bracket_literal_impl']
+_PP_KEPT = ['resetall_compiler_directive', 'timescale_compiler_directive', 'default_nettype_compiler_directive', 'default_nettype_value',
+            'unconnected_drive_compiler_directive', 'nounconnected_drive_compiler_directive', 'celldefine_compiler_directive', 'endcelldefine_compiler_directive',
+            'pragma', 'line_compiler_directive', 'position_compiler_directive', 'keywords_directive', 'version_specifier', 'endkeywords_directive']
+ASSUMED_LEXERS = {
+    'C04': _PP_COMMON + _PP_COND + ['undefine_compiler_directive', 'undefineall_compiler_directive'],
+    'C05': _PP_COMMON + _PP_MACRO + _PP_USAGE,
+    'C06': _PP_COMMON + _PP_KEPT,
+    'C10': _PP_COMMON + _PP_INC + _PP_USAGE[:1],
+    'C11': _PP_COMMON + _PP_MACRO + ['undefine_compiler_directive', 'undefineall_compiler_directive'],
+    'C18': _PP_COMMON + _PP_KEPT[:0] + ['macro_text', 'text_macro_definition'],
+}
+
+
+def lexer_fingerprint(f):
+    import hashlib
+    src = re.sub(r'//[^\n]*', '', f.body_src)
+    src = re.sub(r'\s+', '', src)
+    return hashlib.sha1(src.encode('utf-8')).hexdigest()[:16]
+
+
+def assumed_check(fns, prop):
+    """The preprocessor arms are verified against grammar invariants of the pp tree (which nodes exist, what their leaves cover).  WHAT
+    TEXT each pp production accepts - where a macro body ends, what separates formal arguments, what counts as a comment - is behaviour
+    of nom closures no contract here reaches: it is an ASSUMED contract, backed only by the suite, the bounded stand-ins and the golden
+    files, all of which speak about the pinned text.  A production on this list whose text is no longer the pinned one therefore leaves
+    the property UNDECIDED (exit 2) unless another obligation refutes it - never an alarm, never a pass."""
+    names = []
+    for n in ASSUMED_LEXERS.get(prop, []):
+        if n not in names:
+            names.append(n)
+    base_p = os.path.join(VERIF, 'gvc', 'baseline.json')
+    base = json.load(open(base_p)).get('assumed_lexers', {}) if os.path.exists(base_p) else {}
+    by = {}
+    for f in fns:
+        by.setdefault(f.name, []).append(f)
+    undecided = []
+    checked = 0
+    for n in names:
+        checked += 1
+        cur = sorted(lexer_fingerprint(f) for f in by.get(n, []))
+        if n not in base:
+            undecided.append('assumed production %s has no committed fingerprint' % n)
+        elif not cur:
+            undecided.append('%s: the production %s, whose behaviour is an assumed contract of %s, is not there any more' % ('sv-parser-parser', n, prop))
+        elif cur != sorted(base[n]):
+            f = by[n][0]
+            undecided.append('%s:%d: the production %s, whose accepted language is an assumed contract of %s (no contract reaches nom closures; backed for the pinned text only), has changed' % (f.file, f.line, n, prop))
+    # a fingerprint comparison backs an ASSUMPTION; it is not an obligation and is not counted as one
+    return dict(failures=[], undecided=undecided, checked=0, names=names, compared=checked)
+
+
+# =====================================================================================
 # identifier rules (C13)
 # =====================================================================================
 KW_TABLES = {'Ieee1364_1995': 'KEYWORDS_1364_1995', 'Ieee1364_2001': 'KEYWORDS_1364_2001', 'Ieee1364_2001Noconfig': 'KEYWORDS_1364_2001_NOCONFIG',
